@@ -41,7 +41,8 @@ func isAppHelperCall(i ssa.Instruction) bool {
 	if cc == nil {
 		return false
 	}
-	return strings.HasPrefix(CalleeName(cc), appPkg+".")
+	n := CalleeName(cc)
+	return strings.HasPrefix(n, appPkg+".") || n == ModPath+"/app/types.NewRequest"
 }
 
 // paramNamed returns the index (receiver first) of the parameter with the given name in the callee signature.
@@ -50,6 +51,16 @@ func paramNamed(cc *ssa.CallCommon, name string) int {
 	off := 0
 	if cc.IsInvoke() || sig.Recv() != nil {
 		off = 1
+	}
+	// position by the pinned declaration first: a parameter rename does not move the role
+	var callee *types.Func
+	if cc.IsInvoke() {
+		callee = cc.Method
+	} else if f := cc.StaticCallee(); f != nil {
+		callee, _ = f.Object().(*types.Func)
+	}
+	if k := PinnedParamIndex(callee, name); k >= 0 && k < sig.Params().Len() {
+		return k + off
 	}
 	for k := 0; k < sig.Params().Len(); k++ {
 		if sig.Params().At(k).Name() == name {
@@ -473,14 +484,14 @@ func c17Sibling(c *Ctx, p *Prog) {
 	}
 	named := obj.Type().(*types.Named)
 	st := named.Underlying().(*types.Struct)
-	c.Check("C17.S", "cachingStore:stateless", p, obj.Pos(), st.NumFields() == 1 && st.Field(0).Name() == "BackingStore", "cachingStore has the single field BackingStore: no in-process state (memo, map) can shadow the authoritative store", fmt.Sprintf("cachingStore has %d fields: in-process state can return stale access/routing decisions", st.NumFields()))
+	c.Check("C17.S", "cachingStore:stateless", p, obj.Pos(), st.NumFields() == 1 && objName(st.Field(0)) == "BackingStore", "cachingStore has the single field BackingStore: no in-process state (memo, map) can shadow the authoritative store", fmt.Sprintf("cachingStore has %d fields: in-process state can return stale access/routing decisions", st.NumFields()))
 	iface := tp.Types.Scope().Lookup("Store").Type().Underlying().(*types.Interface)
 	pure := map[string]bool{"IsBackendUserAllowed": true, "LookupBackend": true, "AddBackend": true, "ListBackends": true, "DeleteBackend": true, "DeleteOldBackends": true, "DeleteOldRequests": true, "ListPendingRequests": true}
 	for k := 0; k < iface.NumMethods(); k++ {
 		m := iface.Method(k)
-		fn := p.Func("app/cache.(*cachingStore)." + m.Name())
+		fn := p.Func("app/cache.(*cachingStore)." + objName(m))
 		if fn == nil {
-			c.Bad("C17.S", "cachingStore."+m.Name(), p, 0, "method missing")
+			c.Bad("C17.S", "cachingStore."+objName(m), p, 0, "method missing")
 			continue
 		}
 		var del []ssa.Instruction
@@ -490,7 +501,7 @@ func c17Sibling(c *Ctx, p *Prog) {
 			if cc == nil {
 				return
 			}
-			if cc.IsInvoke() && cc.Method.FullName() == storeIface+"."+m.Name() {
+			if cc.IsInvoke() && cc.Method.FullName() == storeIface+"."+objName(m) {
 				del = append(del, i)
 			} else {
 				others++
@@ -498,7 +509,7 @@ func c17Sibling(c *Ctx, p *Prog) {
 		})
 		bad := ""
 		if len(del) != 1 {
-			bad = fmt.Sprintf("%d delegating calls to BackingStore.%s", len(del), m.Name())
+			bad = fmt.Sprintf("%d delegating calls to BackingStore.%s", len(del), objName(m))
 		} else {
 			a := Args(CallOf(del[0]))
 			if PathOf(a[0]) != P(fn, 0)+".BackingStore" {
@@ -509,7 +520,7 @@ func c17Sibling(c *Ctx, p *Prog) {
 					bad = fmt.Sprintf("argument %d of the delegating call is %s, not the method's own parameter %d", j, PathOf(a[j]), j)
 				}
 			}
-			if pure[m.Name()] {
+			if pure[objName(m)] {
 				if others > 0 || len(fn.Blocks) != 1 {
 					bad = "is not a pure delegation (other calls or branches): an access/routing/listing decision must not be cached or altered in front of the authoritative store"
 				}
@@ -528,7 +539,7 @@ func c17Sibling(c *Ctx, p *Prog) {
 				}
 			}
 		}
-		c.Check("C17.S", "cachingStore."+m.Name(), p, fn.Pos(), bad == "", "delegates to BackingStore."+m.Name()+" with its own parameters in the same positions"+map[bool]string{true: " (pure delegation)", false: ""}[pure[m.Name()]], "cachingStore."+m.Name()+" "+bad)
+		c.Check("C17.S", "cachingStore."+objName(m), p, fn.Pos(), bad == "", "delegates to BackingStore."+objName(m)+" with its own parameters in the same positions"+map[bool]string{true: " (pure delegation)", false: ""}[pure[objName(m)]], "cachingStore."+objName(m)+" "+bad)
 	}
 	ruleStoreKeys(c, p, "C17.S")
 }
